@@ -20,6 +20,10 @@ NoRun == [op |-> "none"]
 
 RanksQuick == {-3, 2}
 RanksThorough == {-3, 0, 2}
+\* explicit ranks at the very bottom of the range, where they meet the implicit ones (isize::MIN + position):
+\* MinRank itself and MinRank + 1
+RanksEdge == {MinRank, MinRank + 1}
+RanksEdgeEnum == {MinRank + 1}
 
 \* the four ways ordering can be educed
 MCKindSet == {"struct", "enum"}
